@@ -48,5 +48,8 @@ Definition mp_finding_classes : list string :=
   flat_map (fun e => match snd e with MFinding c => [c] | _ => [] end) model_panic_map.
 Definition mp_fixed_classes : list string :=
   flat_map (fun e => match snd e with MFixed c => [c] | _ => [] end) model_panic_map.
+(* entries whose producer no longer exists. An MFixed entry may outlive its producer: the owner of the
+   model removes the Panic branch when the model follows the repair, in its own time *)
 Definition mp_stale (gen : list (string * string * nat)) : list (string * string * nat) :=
-  map fst (filter (fun e => negb (existsb (key_eqb (fst e)) gen)) model_panic_map).
+  map fst (filter (fun e => match snd e with MFixed _ => false | _ => negb (existsb (key_eqb (fst e)) gen) end)
+                  model_panic_map).
